@@ -110,6 +110,59 @@ CLAIMED = {
              "(strace: header, whole-4096-byte bulk, tail); interleavings finer than write(2) calls out of scope.",
         technique="Lean 4 proof (list/prefix reasoning, state-machine invariant) + byte-level differential check against numpy.load",
         design="§3 C08"),
+    "C13": dict(
+        text="Lean 4 theorems: the centre of mass of a profile symmetric about a centre on the half-pixel grid is that centre; it "
+             "follows whole-pixel translations and ignores non-zero scaling (any field); every autoconvolution value is bounded by "
+             "the energy and the bound is attained at the symmetry centre (reals). Tie: find_origin(com/convolution/image_center, "
+             "axes) vs the Lean model bit-for-bit on integer-valued images. Oracle: symmetric images about every half-pixel centre, "
+             "translations, scalings, axes; Gaussian spots for the Gaussian fit.",
+        note="Trusted: Lean kernel + standard axioms; scipy center_of_mass / np.convolve / argmax as tied by K; uniqueness of the "
+             "first argmax and the Gaussian fit (curve_fit) are measured, not proved.",
+        technique="Lean 4 proof (finite-sum reflection, AM-GM) + bit-exact differential correspondence",
+        design="§3 C13"),
+    "C14": dict(
+        text="Lean 4 theorems (any field): for every pixel set and every weights, if the folded pixel values follow Σ a_m tᵐ the data "
+             "moments are the Hankel matrix of the weight moments applied to a (normal equations); the coded 2x2 / 3x3 adjugate "
+             "inverses solve the Hankel system; hence exact recovery for 1-3 angular terms wherever the determinant is non-zero. "
+             "Tie: Distributions(...).image(IM).cos() vs an executable Lean model of origin decoding, rmax keywords, folding, "
+             "bins, weights, sin weighting and both bin methods (1e-9 on well-conditioned radii). Oracle: exact synthetic images "
+             "over all shapes/origins/rmax/orders 0-8/odd/methods/weights; anisotropy_parameter on noiseless curves.",
+        note="Trusted: Lean kernel + standard axioms; non-singularity of the Hankel matrix is a hypothesis; orders > 4 (scipy inv), "
+             "method='remap' and curve_fit are outside the model (oracle only).",
+        technique="Lean 4 proof (list-sum algebra, field identities) + differential correspondence of a full executable model",
+        design="§3 C14"),
+    "C15": dict(
+        text="Lean 4 theorems: the flipped-Pascal cos^n→cos^n sin^m conversion evaluates to the same function (up to five terms, any "
+             "commutative ring with c+s=1); the Legendre conversion matrices for orders 0..8 with/without odd terms are exact "
+             "inverses of the Legendre coefficient matrices (kernel-decided over rationals); results are invariant under weight "
+             "scaling and under the values of zero-weight pixels (algebraic core). Tie: Results.cossin()/harmonics() vs the exact "
+             "tables. Oracle: same-function evaluation at random θ, I=4πr²P0, β=Pn/P0, windows, and the image-symmetry invariances.",
+        note="Trusted: Lean kernel + standard axioms; Bonnet recurrence as the definition of P_n; mirror / origin-form / rmax-prefix "
+             "invariances are measured on the implementation only.",
+        technique="Lean 4 proof (ring identities, decide +kernel over exact rational tables) + differential correspondence",
+        design="§3 C15"),
+    "C16": dict(
+        text="Lean 4 theorems: the rBasex image synthesis interpolates each distribution linearly between integer radii, falls "
+             "linearly to zero between rmax and rmax+1, is zero beyond and linear in the distributions (any field); the five "
+             "output frames: 'same' = input shape and origin, 'full' = centred (2rmax+1)-square, 'full-unique'/'fold' = unique "
+             "parts of 'full'/'unfold', 'unfold' twice the fold minus the shared axes. Tie: rbasex_transform(...)[0] for every out "
+             "value vs the Lean synthesis of the returned distributions (1e-11). Oracle: identical distributions across out "
+             "values, independent numpy synthesis, mirror-unfolding, zero-weight pixels, valid flags, Transform pass-through.",
+        note="Trusted: Lean kernel + standard axioms; pixel-value mirror symmetry of the Float synthesis measured; radial transform "
+             "matrices are other properties' business.",
+        technique="Lean 4 proof (list-sum algebra, index arithmetic) + differential correspondence on all output geometries",
+        design="§3 C16"),
+    "C19": dict(
+        text="Lean 4 theorems over the reals: Cartesian→polar→Cartesian is the identity with arctan2(x,y)=arg(y+xi), zero angle up, "
+             "positive to the right; index_coords origin/axes incl. negative origins; sample positions of the polar reprojection; "
+             "int2D = 2πr·avg2D and int3D = 4πr²·avg3D for any polar image; toPES conserves the trapezoid integral on a uniform "
+             "grid for profiles vanishing at both ends; circularize with a constant correction samples every pixel at itself. "
+             "Tie: numpy coordinate functions, the four radial_intensity kinds on a stubbed polar image and toPES vs the model. "
+             "Oracle: the clauses on random inputs; recorded resampler positions; quadrature-level clauses with tolerances.",
+        note="Trusted: Lean kernel + standard axioms; scipy map_coordinates outside the model; isotropic-profile / total-conservation "
+             "clauses hold to quadrature accuracy (measured). Known finding F20 (circularize border pixels, ref_angle=None).",
+        technique="Lean 4 proof (Complex.arg, finite-sum algebra, telescoping induction) + differential correspondence",
+        design="§3 C19"),
 }
 
 NOT_YET = "check not built yet in this session (planned, see DESIGN.md §3); not claimed until its theorems and correspondence run"
